@@ -104,7 +104,8 @@ static void observe(Inst& m) {
       rec(it->payload() ? (0x100 + (it->payload()->v & 0x7F)) & 0xFF : 0xAB);
 #endif
       if (++n > CAP) break; } rec(0xD0 + n); }
-  { Inst::SerialBuffer b; const Inst& cm = m; cm.save(b); rec(b.data()[0]); }
+  { Inst::SerialBuffer b; nondet_fill(&b, sizeof b);       // a re-used buffer: whatever it held before is prior memory contents too
+    const Inst& cm = m; cm.save(b); rec(b.data()[0]); }
 }
 
 static void one_step(Inst& m) {
@@ -168,7 +169,7 @@ extern "C" int harness(void) {
         for (; n <= CAP; ++n) { bool a = bool(io), b = bool(ic); if (a != b) eq = false; if (!a || !b) break;
           if (io->origin != ic->origin || io->destination != ic->destination) eq = false; ++io; ++ic; }
         vassert(eq, 1712); }
-      { Inst::SerialBuffer bo, bc; const Inst& co = *o; const Inst& cc = *c; co.save(bo); cc.save(bc); vassert(bo == bc, 1713); }
+      { Inst::SerialBuffer bo, bc; nondet_fill(&bo, sizeof bo); nondet_fill(&bc, sizeof bc); const Inst& co = *o; const Inst& cc = *c; co.save(bo); cc.save(bc); vassert(bo == bc, 1713); }
       snapshot(*c, snap);
     }
     if (s < KSTEPS) { step = s + 1; ci = 0; one_step(*o); }
